@@ -302,7 +302,8 @@ TRANSPARENT = [
     r"^<.* as std::ops::Deref>::deref$", r"^<.* as std::ops::DerefMut>::deref_mut$",
     r"^std::ops::Deref::deref$", r"^std::ops::DerefMut::deref_mut$",
     r"^<.* as std::convert::AsRef<.*>>::as_ref$", r"^std::convert::AsRef::as_ref$",
-    r"^<.* as std::borrow::Borrow<.*>>::borrow$",
+    r"^<.* as std::borrow::Borrow<.*>>::borrow$", r"^std::borrow::Borrow::borrow$",
+    r"::into_iter$",
     r"^<.* as std::clone::Clone>::clone$", r"^std::clone::Clone::clone$",
     r"^<.* as std::convert::Into<.*>>::into$", r"^<.* as std::convert::From<.*>>::from$",
     r"^std::convert::Into::into$", r"^std::convert::From::from$",
@@ -425,6 +426,10 @@ class Prov:
     def _field(self, t, owner, f, strip):
         if strip and owner.split("::<")[0] in ("std::boxed::Box", "std::ptr::Unique", "std::ptr::NonNull"):
             return t
+        if t == ("arg", 1) and owner.startswith("(closure)"):
+            cap = self.b.fn.captured(int(f)) if f.isdigit() else None
+            if cap is not None:
+                return ("upvar", cap)
         if strip and t[0] == "enext" and owner == "std::option::Option::Some" and f == "0":
             return ("epair", t[1])
         if strip and t[0] == "epair" and owner == "(tuple)":
@@ -626,6 +631,8 @@ def show(t, depth=0):
         return "…"
     if k == "arg":
         return "arg%d" % t[1]
+    if k == "upvar":
+        return "^" + show(t[1], depth + 1)
     if k == "fld":
         return "%s.%s" % (show(t[1], depth + 1), t[3])
     if k == "const":
@@ -826,6 +833,29 @@ class Fn:
             ps = self.j.get("promoted", [])
             self._prom[i] = Body(self, ps[i]) if i < len(ps) else None
         return self._prom[i]
+
+    def captured(self, idx):
+        """for a closure: provenance (in the parent function) of the idx-th captured variable"""
+        if not hasattr(self, "_caps"):
+            self._caps = None
+            parent = self.j.get("parent")
+            # the immediate parent may itself be a closure
+            cands = [self.path.rsplit("::{closure#", 1)[0], parent]
+            for pp in cands:
+                pf = self.prog.fns.get(pp) if pp else None
+                if pf is None:
+                    continue
+                pb = pf.body
+                for bi in range(pb.n):
+                    for st in pb.stmts(bi):
+                        if st["k"] == "assign" and st["rv"]["k"] == "agg" and st["rv"].get("ak") == "closure" and st["rv"].get("def") == self.path:
+                            pr = Prov(pb)
+                            self._caps = [pr.operand(o) for o in st["rv"]["ops"]]
+                if self._caps is not None:
+                    break
+        if self._caps is None or idx >= len(self._caps):
+            return None
+        return self._caps[idx]
 
     def where(self, sp=None):
         sp = sp or self.j["sp"]
